@@ -642,7 +642,7 @@ class Interp:
 
     def e_block(self, e, env):
         benv = Interp.Env(env)
-        if self.depth == 1:
+        if 1 <= self.depth <= 3:      # the top-level function and the stage helpers it is split into
             self.block_envs.append(benv)
         for s in e["stmts"]:
             self.stmt(s, benv)
